@@ -281,7 +281,7 @@ class Findings(object):
 
     def match(self, pid, clause, trigger):
         for (p, c, t, text) in self.entries:
-            if p == pid and c == clause and t == trigger:
+            if p == pid and c == clause and (t == trigger or t == "*"):
                 return text
         return None
 
